@@ -598,6 +598,9 @@ class Exec:
         mm = re.match(r'((?:[\w]+::)*)(\w+)(?:::<.*?>)?::(\w+)$', rhs)
         if mm and re.match(r'[A-Z]', mm.group(2)) and re.match(r'[A-Z][a-z0-9]', mm.group(3) + 'a'):
             return Enum(mm.group(3), (), mm.group(2))
+        mm = re.match(r'(?:\w+::)*(\w+)::<.*?>\((.*)\)$', rhs)       # generic tuple struct: Reverse::<u64>(x)
+        if mm and re.match(r'[A-Z]', mm.group(1)) and not rhs.startswith(('copy ', 'move ', 'const ')):
+            d = {i: op(a) for i, a in enumerate(split_top(mm.group(2)))}; d['__ty'] = mm.group(1); return d
         mm = re.match(r'(\w+)\((.*)\)$', rhs)       # tuple struct
         if mm and re.match(r'[A-Z]', mm.group(1)):
             d = {i: op(a) for i, a in enumerate(split_top(mm.group(2)))}; d['__ty'] = mm.group(1); return d
